@@ -242,6 +242,9 @@ func (its *jsonPrimitive) getTargetFromPatch(path string) (jsonType, string, err
 	if len(paths) < 1 {
 		return nil, "", errors.DatatypeInvalidPatch.New(its.common.L(), "incorrect path: %v", path)
 	}
+	for i, token := range paths { // RFC 6901: '~1' stands for '/', '~0' for '~'
+		paths[i] = strings.ReplaceAll(strings.ReplaceAll(token, "~1", "/"), "~0", "~")
+	}
 	key := paths[len(paths)-1]
 	paths = paths[1 : len(paths)-1]
 
